@@ -53,3 +53,35 @@ pub fn sym_b() -> String { String::new() }
 #[derive(TS)] #[ts(tag = "type")] pub struct Tg1<T> { pub v: T }
 #[derive(TS)] pub struct PF5<T> { pub id: bool, #[ts(flatten)] pub m: Tg1<T> }
 #[derive(TS)] pub struct PF6<T> { #[ts(flatten)] pub m: Tg1<T> }
+#[derive(TS)] pub struct IO1<T> { #[ts(inline)] pub a: Option<Inner<T>>, #[ts(inline)] pub b: Vec<Inner<T>>, #[ts(inline)] pub c: Box<Inner<T>> }
+#[derive(TS)] pub struct NO1<T> { pub a: Option<Inner<T>>, pub b: Vec<Inner<T>>, pub c: Box<Inner<T>> }
+#[derive(TS)] pub struct FL1<T> { pub q: bool, #[ts(flatten)] pub s: Inner<T> }
+#[derive(TS)] pub struct FL2<T> { pub r: bool, #[ts(flatten)] pub t: FL1<T> }
+#[derive(TS)] #[ts(rename_all = "UPPERCASE")] pub struct FL3<T> { pub aa: bool, #[ts(flatten)] pub s: Inner<T> }
+#[derive(TS)] pub struct FL4<T> { #[ts(skip)] pub z: bool, #[ts(optional)] pub o: Option<T>, #[ts(flatten)] pub s: Inner<T> }
+#[derive(TS)] pub struct TS1<T>(pub T, pub Vec<T>);
+#[derive(TS)] pub struct NT1<T>(pub Option<T>);
+#[derive(TS)] pub struct U1;
+#[derive(TS)] #[ts(untagged)] pub enum EU<T> { A(T), B { v: T } }
+#[derive(TS)] #[ts(tag = "t")] pub enum ET<T> { A { v: T }, B }
+#[derive(TS)] #[ts(tag = "t", content = "c")] pub enum EA<T> { A(T), B { v: T }, C }
+#[derive(TS)] pub struct IE1<T> { #[ts(inline)] pub u: EU<T>, #[ts(inline)] pub t: ET<T>, #[ts(inline)] pub a: EA<T>, #[ts(inline)] pub n: NT1<T>, #[ts(inline)] pub p: TS1<T> }
+#[derive(TS)] pub struct NE1<T> { pub u: EU<T>, pub t: ET<T>, pub a: EA<T>, pub n: NT1<T>, pub p: TS1<T> }
+#[derive(TS)] pub struct FE1<T> { pub k: bool, #[ts(flatten)] pub t: ET<T> }
+#[derive(TS)] #[ts(tag = "t")] pub enum IT1<T> { A(#[ts(inline)] EU<T>), B }
+#[derive(TS)] #[ts(tag = "t")] pub enum IT2<T> { A(EU<T>), B }
+#[derive(TS)] #[ts(tag = "t", content = "c")] pub enum IA1<T> { A(#[ts(inline)] EU<T>), B }
+#[derive(TS)] #[ts(tag = "t", content = "c")] pub enum IA2<T> { A(EU<T>), B }
+#[derive(TS)] pub enum IX1<T> { A(#[ts(inline)] EU<T>), B { #[ts(inline)] e: ET<T> } }
+#[derive(TS)] pub enum IX2<T> { A(EU<T>), B { e: ET<T> } }
+#[derive(TS)] #[ts(untagged)] pub enum IU1<T> { A(#[ts(inline)] ET<T>), B(#[ts(inline)] Inner<T>, T) }
+#[derive(TS)] #[ts(untagged)] pub enum IU2<T> { A(ET<T>), B(Inner<T>, T) }
+#[derive(TS)] pub struct Mk<T: TS> { pub raw: u32, #[ts(skip)] pub m: std::marker::PhantomData<T> }
+#[derive(TS)] pub struct Ov<T: TS> { #[ts(type = "Array<T>")] pub items: Vec<T>, pub total: u32 }
+#[derive(TS)] pub struct K1<T> { #[ts(rename = "a-b")] pub x: T, #[ts(type = "string", rename = "c-d")] pub y: i32, #[ts(rename = "1st")] pub z: T, #[ts(optional, rename = "o p")] pub w: Option<T> }
+#[derive(TS)] #[ts(rename_all = "kebab-case")] pub struct K2<T> { pub foo_bar: T, #[ts(type = "number")] pub baz_qux: i32, #[ts(inline)] pub in_l: Inner<T>, #[ts(flatten)] pub fl_t: Inner<T> }
+#[derive(TS)] #[ts(rename_all_fields = "kebab-case")] pub enum K3<T> { A { foo_bar: T, #[ts(type = "number")] baz_qux: i32 }, #[ts(rename_all = "SCREAMING-KEBAB-CASE")] B { qu_ux: T } }
+#[derive(TS)] pub enum K4<T> { #[ts(rename = "v-1")] A(T), #[ts(rename = "v 2")] B { x: T }, #[ts(rename = "3rd")] C }
+#[derive(TS)] #[ts(tag = "t-g", content = "c t")] pub enum K5<T> { A(T), #[ts(rename = "b-b")] B { #[ts(rename = "y-y")] y: T } }
+#[derive(TS)] pub struct K6<T> { pub r#type: T, pub r#struct: i32, #[ts(type = "boolean")] pub r#fn: i32 }
+#[derive(TS)] #[ts(tag = "ki-nd")] pub struct K7<T> { #[ts(rename = "va-l")] pub v: T }
